@@ -201,7 +201,11 @@ class MLIRTokenKind(Enum):
             raise ValueError("Token is not an integer literal!")
         if span.text[:2] in ["0x", "0X"]:
             return int(span.text, 16)
-        return int(span.text, 10)
+        try:
+            return int(span.text, 10)
+        except ValueError as e:
+            # CPython refuses to convert decimal literals beyond its digit limit
+            raise ParseError(span, f"Invalid integer literal: {e}") from e
 
     def get_float_value(self, span: Span):
         """
